@@ -30,7 +30,7 @@ EXPLANATION = (
     "is dominated by the specifier check that raises, the checked constant is the CiA 301 partner of the request, "
     "block sub-commands and multiplexers are checked where the response carries them; R4 the toggle comparison "
     "dominates the data return of a segment read; R6 no residue: SdoClient rebinds only `responses` outside __init__, "
-    "stream state lives in per-open() objects, both server initiate handlers reset toggle and buffer together."
+    "stream state lives in per-open() objects, both server initiate handlers reset toggle and buffer together. R8 no class-level mutable object is mutated in place by instances (each node/client/map/dictionary has its own state)."
 )
 ASSUMPTIONS = [
     "not decided: running the disturbances (lost/duplicated/stale frames at every step) -- only the guards that make "
@@ -121,6 +121,10 @@ def run(chk):
     made = {dotted(c.func) for c in ast.walk(op.node) if isinstance(c, ast.Call)} & {"ReadableStream", "WritableStream", "BlockUploadStream", "BlockDownloadStream"}
     chk.check(len(made) == 4, "R6", f"{CL}:SdoClient.open | fresh stream object per transfer", op.loc(), f"open() constructs {sorted(made)}")
     shared.server_reset(chk, "R6")
+
+    # ------------------------------------------------------------------ R8 instances are independent (shared clause)
+    from . import shared as _shared
+    _shared.isolation(chk, "R8", rels=['canopen/sdo/client.py', 'canopen/sdo/base.py', 'canopen/sdo/server.py'])
 
 
 def _toggle_fact(fr, r) -> bool:
